@@ -189,7 +189,7 @@ func (s *Sim) Do(o Op) (caseT []string, obsT []string) {
 		s.payloads[string(b)] = o.Payload
 		conn := s.conn()
 		n, err := conn.Write(b)
-		if err == nil && n != len(b) {
+		if err == nil && n != len(b) && !(o.Payload.ID == RefusedPayloadID && n == 0) {
 			rets = append(rets, fmt.Sprintf("short_write_%d", n))
 		} else {
 			rets = append(rets, retCode(err))
@@ -200,7 +200,7 @@ func (s *Sim) Do(o Op) (caseT []string, obsT []string) {
 		s.payloads[string(b)] = o.Payload
 		conn := s.conn()
 		n, err := conn.WriteToPair(o.PairID, b)
-		if err == nil && n != len(b) {
+		if err == nil && n != len(b) && !(o.Payload.ID == RefusedPayloadID && n == 0) {
 			rets = append(rets, fmt.Sprintf("short_write_%d", n))
 		} else {
 			rets = append(rets, retCode(err))
